@@ -359,3 +359,41 @@ uint32_t X_mprotect(uint64_t p, uint64_t len, uint32_t prot) { return verif_mpro
 uint32_t X_madvise(uint64_t p, uint64_t len, uint32_t adv) { (void)p; (void)len; (void)adv; return 0; }
 uint64_t X_sysconf(uint32_t name) { (void)name; return verif_page_size(); }
 #endif
+
+#ifdef IR_LIST_MODELS
+/* the four out-of-line primitives of std::list that exist only inside libstdc++.so (src/c++98/list.cc): documented pointer
+ * surgery on _List_node_base { _M_next @0, _M_prev @8 } */
+#define NXT(p) ld64((p), 15)
+#define PRV(p) ld64((p) + 8, 15)
+#define SNXT(p, v) st64((p), (v), 7)
+#define SPRV(p, v) st64((p) + 8, (v), 7)
+void X__ZNSt8__detail15_List_node_base7_M_hookEPS0_(uint64_t self, uint64_t pos)
+{
+    SNXT(self, pos); SPRV(self, PRV(pos)); SNXT(PRV(pos), self); SPRV(pos, self);
+}
+void X__ZNSt8__detail15_List_node_base9_M_unhookEv(uint64_t self)
+{
+    uint64_t n = NXT(self), p = PRV(self); SNXT(p, n); SPRV(n, p);
+}
+void X__ZNSt8__detail15_List_node_base4swapERS0_S1_(uint64_t x, uint64_t y)
+{
+    if (NXT(x) != x) {
+        if (NXT(y) != y) {
+            uint64_t xn = NXT(x), xp = PRV(x), yn = NXT(y), yp = PRV(y);
+            SNXT(x, yn); SPRV(x, yp); SNXT(y, xn); SPRV(y, xp);
+            SPRV(NXT(x), x); SNXT(PRV(x), x); SPRV(NXT(y), y); SNXT(PRV(y), y);
+        } else {
+            SNXT(y, NXT(x)); SPRV(y, PRV(x)); SPRV(NXT(y), y); SNXT(PRV(y), y); SNXT(x, x); SPRV(x, x);
+        }
+    } else if (NXT(y) != y) {
+        SNXT(x, NXT(y)); SPRV(x, PRV(y)); SPRV(NXT(x), x); SNXT(PRV(x), x); SNXT(y, y); SPRV(y, y);
+    }
+}
+void X__ZNSt8__detail15_List_node_base11_M_transferEPS0_S1_(uint64_t self, uint64_t first, uint64_t last)
+{
+    if (self != last) {
+        SNXT(PRV(last), self); SNXT(PRV(first), last); SNXT(PRV(self), first);
+        uint64_t tmp = PRV(self); SPRV(self, PRV(last)); SPRV(last, PRV(first)); SPRV(first, tmp);
+    }
+}
+#endif
